@@ -140,6 +140,16 @@ claim("C10", "exploration",
       "Lendable objects are builtin lists (no nested INSPECT); CPython refcounting finalises dropped proxies immediately.",
       "DESIGN.md §4 C10")
 
+claim("C15", "exploration",
+      "model-based testing in virtual time (Hypothesis): generated timed event lists against a reference state machine "
+      "written from the statement; exact virtual-time comparison of when wait/value return or raise; callback log",
+      "Timeouts, reply times (incl. +-epsilon around the expiry and exact ties), query and wait operations and callback "
+      "registrations are generated as timed event lists and executed on the real AsyncResult/Connection over a scripted "
+      "peer under a virtual clock, so 'at the expiry instant, never earlier' is compared exactly. Ties, negative timeouts "
+      "and handler-time shifts are held only to the universal clauses (finality, callbacks once).",
+      "Single requester thread (multi-thread hand-off is C13/C14); virtual clock advances only when all threads block.",
+      "DESIGN.md §4 C15")
+
 NOT_YET = "check not built yet in this revision (see DESIGN.md §8 build order)"
 
 
